@@ -14,12 +14,13 @@ set_option linter.unusedSimpArgs false
 
 /-- `mw_refine I F M H`: integration constant, its facts, its generated middleware and Handle terms -/
 macro "mw_refine" I:ident F:ident M:ident H:ident : tactic => `(tactic| (
-  intro rq base closed hb
+  intro rq base closed hb hwf
   cases hI : rq.installed
-  · rcases hd : rq.down with _ | ⟨r, rf⟩ <;> cases ho : rq.outcome <;> try (cases r <;> cases rf)
+  · have hou : rq.outer = none := hwf hI
+    rcases hd : rq.down with _ | ⟨r, rf⟩ <;> cases ho : rq.outcome <;> try (cases r <;> cases rf)
     all_goals
       simp [Integration.run, runRequest, $I:ident, $F:ident, $H:ident, runDown, runPlain, runHandle, execH, stepH, execHE, stepHE,
-        requestEnd, specTrace, specTail, locOf, downSpec, created, St.emit, St.setCtl, HSt.emit, hI, hd, ho]
+        requestEnd, specTrace, specTail, locOf, downSpec, created, St.emit, St.setCtl, HSt.emit, hI, hd, ho, hou]
   · cases hc : rq.create
     · cases hm : mwFails rq
       · rcases hd : rq.down with _ | ⟨r, rf⟩ <;> cases ho : rq.outcome <;> cases hce : rq.closeErr <;> try (cases r <;> cases rf)
